@@ -5,6 +5,7 @@
 pub mod verif_access {
     pub use super::material::eval as material_eval;
     pub use super::mobility_and_king_safety::eval as mobility_eval;
+    pub use super::mobility_and_king_safety::verif_access::side_term as mobility_side_term;
     pub use super::params::{ATTACKED_KING_SQUARES, BISHOP_MOBILITY, BISHOP_PAIR_BONUS, KNIGHT_MOBILITY, PIECE_VALUES, QUEEN_MOBILITY, ROOK_MOBILITY};
     pub use super::pawn_structure::eval as pawn_eval;
     pub use super::phased_eval::{piece_phase_value_contribution, phase_value};
